@@ -6,6 +6,7 @@
 package relay
 
 import (
+	"fmt"
 	"time"
 
 	"github.com/libp2p/go-libp2p/core/peer"
@@ -42,8 +43,10 @@ func VerifSnapshot(r *Relay) VerifSnap {
 		s.Total = append(s.Total, VerifPE{pe.Peer, pe.Expiry})
 	}
 	for k, l := range c.ips {
+		// whatever the key type is (string today), report its printed form
+		ks := fmt.Sprint(k)
 		for _, pe := range l {
-			s.Ips[k] = append(s.Ips[k], VerifPE{pe.Peer, pe.Expiry})
+			s.Ips[ks] = append(s.Ips[ks], VerifPE{pe.Peer, pe.Expiry})
 		}
 	}
 	for k, l := range c.asns {
